@@ -1,6 +1,6 @@
 """C27 -- thread-safe attributes lose no updates and never fail under concurrency."""
 import miros.thread_safe_attributes as TSA
-from vt import detsched as ds, wl_c27, sysx
+from vt import detsched as ds, wl_c27, sysx, osback
 
 ID = 'C27'
 ENGINE = 'detsched'
@@ -11,10 +11,10 @@ RULE = ('2-4 real threads execute 1-3 statements each on one shared object: o.a 
         'PCT schedules; a thread that raises, a quiescent state with an unfinished thread (deadlock), a read that returns a value no serial '
         'order can produce, or a final value outside the set of final values of all serial orders of the same statements (computed by '
         'dynamic programming over the interleavings of whole statements) is a violation. distinct_nontrivial = distinct context-switch '
-        'sequences of runs mixing >= 2 statement kinds. ' + sysx.RULE_TEXT % (1, 2))
+        'sequences of runs mixing >= 2 statement kinds. Every twentieth case repeats the workload (2-5 threads x 2-6 statements) on REAL threads with the real RLock (vt/osback.py: nothing substituted, switch interval 1 us, random yields at line starts of miros code and of the statements); a run that does not finish in the wall-clock limit is inconclusive there, never a verdict. ' + sysx.RULE_TEXT % (1, 2))
 CASES = {'quick': 2500, 'thorough': 150000}
 BUDGET = {'quick': 150, 'thorough': 600}
-REQUIRE = {'runs': 1000, 'runs_mixing_plain_and_augmented': 300, 'switch_between_get_and_set': 200, 'systematic_schedules': 500, 'systematic_scenarios_exhausted': 2}
+REQUIRE = {'runs': 1000, 'runs_mixing_plain_and_augmented': 300, 'switch_between_get_and_set': 200, 'systematic_schedules': 500, 'systematic_scenarios_exhausted': 2, 'os_backend_runs': 60}
 ASSUME = ['statement-level atomicity is the reference: the set of legal outcomes is that of all serial orders of whole statements']
 ANNOUNCE_CASES = True
 
@@ -51,7 +51,47 @@ SYS = {'quick': (8, 1, 3000, 75.0), 'thorough': (32, 2, 100000, 150.0)}     # sy
 
 
 def run_case(ctx, n):
+  if n % 20 == 19:
+    return os_case(ctx, n)
   sysx.run_case(ctx, n, SYS, scenario)
+
+
+def os_case(ctx, n):
+  """second opinion on real threads with the real RLock (vt/osback.py): nothing substituted, interleavings perturbed.  A run whose
+  threads do not finish within the wall-clock limit is inconclusive here (detsched decides deadlock exactly)"""
+  rng = ctx.rng('os', n)
+  plans = []
+  for t in range(rng.randint(2, 5)):
+    plan = []
+    for _ in range(rng.randint(2, 6)):
+      op = rng.choice(['+=', '+=', '-=', '*=', '=', '=', 'read', 'b+='])
+      plan.append((op, {'+=': rng.randint(1, 9), '-=': rng.randint(1, 9), '*=': rng.randint(2, 3), '=': rng.randint(10, 99), 'read': None, 'b+=': rng.randint(1, 9)}[op]))
+    plans.append(tuple(plan))
+
+  class K(metaclass=TSA.MetaThreadSafeAttributes):
+    _attributes = ['a', 'b']
+  o = K()
+  outs = [[] for _ in plans]
+  with osback.Perturb(rng.randrange(1 << 30), p_yield=rng.choice([0.1, 0.3, 0.6]), extra_files=(wl_c27.__file__,)) as P:
+    finished, excs = osback.run_threads([(wl_c27.worker, (o, pl, outs[i])) for i, pl in enumerate(plans)], limit=20.0)
+  ctx.count('os_backend_yields_injected', P.nyields)
+  wit = {'backend': 'os threads', 'plans': plans}
+  if excs:
+    ctx.count('os_backend_runs')
+    ctx.violation('C27/exception-in-thread', 'real threads: a thread using the attribute raised: %r' % excs, wit)
+    return
+  if not finished:
+    ctx.count('os_backend_inconclusive')
+    return
+  ctx.count('os_backend_runs')
+  final = []
+  ok, _ = osback.run_threads([(lambda: final.append(o.a), ())], limit=10.0)
+  if not ok:
+    ctx.count('os_backend_inconclusive')
+    return
+  legal = serial_outcomes(tuple(tuple(x for x in pl if x[0] != 'b+=') for pl in plans))
+  if final[0] not in legal:
+    ctx.violation('C27/lost-update', 'real threads: final value %r is not the result of any serial order of the statements (legal: %r)' % (final[0], sorted(legal)[:12]), wit)
 
 
 def scenario(ctx, n):
